@@ -27,7 +27,7 @@ impl EIA {
 
     /// Return MAC
     pub fn gen_mac(&mut self, m: &[u32], ilen: u32) -> u32 {
-        let keylength = (ilen + 31) / 32 + 2;
+        let keylength = ilen / 32 + (ilen % 32 != 0) as u32 + 2;
         let keys = self.zuc.generate_keystream(keylength as usize);
         let keys = keys.as_slice();
         let mut t = 0_u32;
